@@ -257,6 +257,8 @@ type replica struct {
 	firstVal    int
 	me          uint64
 	checkGid    bool
+	obsFault    *cat.Fault // C07: stage 99 = the observer's value callback panics at invocation At; 98 = its terminal callback panics
+	obsN        int
 	leaveGroups bool // higher-order outputs: unsubscribe from every inner observable after its first value
 }
 
@@ -297,10 +299,33 @@ func (r *replica) observer() ro.Observer[any] {
 				return
 			}
 			recv("N", cat.Canon(v), ctx)
+			if f := r.obsFault; f != nil && f.Stage == 99 {
+				r.obsN++
+				if r.obsN-1 == f.At {
+					obsPanic(f)
+				}
+			}
 		},
-		func(ctx context.Context, err error) { recv("E", fmt.Sprint(cat.CauseOf(err)), ctx) },
-		func(ctx context.Context) { recv("C", "0", ctx) },
+		func(ctx context.Context, err error) {
+			recv("E", fmt.Sprint(cat.CauseOf(err)), ctx)
+			if f := r.obsFault; f != nil && f.Stage == 98 {
+				obsPanic(f)
+			}
+		},
+		func(ctx context.Context) {
+			recv("C", "0", ctx)
+			if f := r.obsFault; f != nil && f.Stage == 98 {
+				obsPanic(f)
+			}
+		},
 	)
+}
+
+func obsPanic(f *cat.Fault) {
+	if f.Kind == "panic-val" {
+		panic("injected fault value 13")
+	}
+	panic(cat.ErrFault)
 }
 
 // Replay runs one case in one mode.
@@ -412,6 +437,9 @@ func replay(idx int, c *Case, mode string, out *[]Mismatch) {
 			add(0, "sub", "source subscribed at construction time")
 		}
 		r.firstVal = -1
+		if faulty && c.Fault.Stage >= 98 {
+			r.obsFault = c.Fault
+		}
 		r.checkGid = mode == "ctl-unsafe"
 		if r.checkGid {
 			r.me = gid()
